@@ -237,6 +237,20 @@ impl<'ast, 's> Visit<'ast> for Collect<'s> {
         self.push(Kind::Ident { name: n.to_string() }, Rng { lo: r.start, hi: r.end });
     }
     fn visit_macro(&mut self, n: &'ast syn::Macro) {
+        // the arguments of the print/format family are ordinary expressions: parse them so that an `if` (etc.) inside
+        // is addressable by an anchor path like any other; everything else stays an opaque token stream
+        let name = n.path.segments.last().map(|s| s.ident.to_string()).unwrap_or_default();
+        if matches!(name.as_str(), "println" | "print" | "eprintln" | "eprint" | "format") {
+            if let Ok(args) = n.parse_body_with(syn::punctuated::Punctuated::<syn::Expr, syn::Token![,]>::parse_terminated) {
+                let mut sub = Collect { src: self.src, nodes: Vec::new() };
+                for e in args.iter() {
+                    sub.visit_expr(e);
+                }
+                self.nodes.extend(sub.nodes);
+                visit::visit_macro(self, n);
+                return;
+            }
+        }
         self.walk_tokens(n.tokens.clone());
         visit::visit_macro(self, n);
     }
